@@ -19,11 +19,18 @@ CLAIMS = {
         "note": NOTE_COMMON + "PGPredicate's check is covered by the port-graph stages once claimed; the predicate closure is modelled as a pure function returning Option (none = panic).",
         "technique": TECH,
     },
+    "C12": {
+        "category": "proof",
+        "design_ref": "DESIGN.md §5 C12, §4 F1",
+        "text": "Full (after the fix: commit for F1): c12_missing / c12_all prove for every rank-acyclic scheme, every known set and every request list that the iterative DFS terminates and returns a duplicate-free list that is exactly the set Needed (requested keys and their transitive prerequisites reachable through unknown keys), every key after all of its own missing prerequisites; c12_*_any_fuel: the result does not depend on the fuel; c12_known; c12_check_sound/_complete: the Bool checker the driver evaluates on the implementation's own output is equivalent to the specification; c12_old_misorders: the pinned algorithm violated the property (F1). Correspondence: list-for-list agreement on all schemes with <=3 keys x all known sets x requests, 4-key acyclic schemes and random DAGs (77k records quick).",
+        "note": NOTE_COMMON + "Needed treats a known key's prerequisites as satisfied (what the code does; equals the literal reading on prerequisite-closed known sets, DESIGN §5 C12). The FxHashSet arguments are modelled as lists (membership only).",
+        "technique": TECH,
+    },
 }
 
 NOT_APPLICABLE = [
     {"property_id": p, "reason": "not yet claimed in this round: model / theorems / correspondence stage under construction (see DESIGN.md §7 build order); no technique switch intended"}
-    for p in ["C01", "C02", "C03", "C04", "C05", "C06", "C07", "C08", "C09", "C10", "C11", "C12", "C14", "C15", "C17"]
+    for p in ["C01", "C02", "C03", "C04", "C05", "C06", "C07", "C08", "C09", "C10", "C11", "C14", "C15", "C17"]
 ]
 
 NOTES = "See DESIGN.md. Every check re-checks its Lean theorems (lake build + #print axioms audit), rebuilds the harness against /repo's working tree, runs the correspondence for the stages in the property's cone and evaluates the property's executable oracle on the implementation's outputs."
